@@ -6,6 +6,7 @@ import Driver.EncX
 import Driver.EncW
 import Driver.X2T
 import Driver.Spec
+import Driver.SpecXml
 open Driver
 
 def dispatch (line : String) : String :=
@@ -23,6 +24,8 @@ def dispatch (line : String) : String :=
   | "X2T" :: rest => x2tVerb rest
   | "X2W" :: rest => x2wVerb rest
   | "SPEC" :: rest => specVerb rest
+  | "SPECX" :: rest => specxVerb rest
+  | "XVIEW" :: rest => xviewVerb rest
   | _ => "BADVERB"
 
 partial def loop (h : IO.FS.Stream) (out : IO.FS.Stream) : IO Unit := do
